@@ -1074,7 +1074,7 @@ pub(crate) fn c18_truncate_fresh(unify: bool, reserved: u32, n: usize) {
   kani::cover!(g.ok, "allocation after truncate");
   core::mem::forget(arena);
 }
-// @h props=C18 tier=quick timeout=900 mem=16 bounds=CAP=64,unify,reserved=5,nothing-allocated,n=96
+// @h props=C18 tier=quick timeout=1200 mem=28 bounds=CAP=64,unify,reserved=5,nothing-allocated,n=96
 #[kani::proof]
 #[kani::unwind(10)]
 fn c18_truncate_fresh_unify_r5() {
